@@ -137,6 +137,9 @@ def main(argv):
             return 2
         common.sync_coq_copy()
         common.run_src2v()
+        deps = list(getattr(mod, "COQ_DEPS", []))
+        if deps:
+            common.coq_make(deps, timeout=getattr(mod, "COQ_TIMEOUT", 1500))   # the model's .vo must match the regenerated Gen
         rc = mod.replay(ctx, obj) if hasattr(mod, "replay") else 2
         return rc
 
